@@ -406,7 +406,7 @@ def _run_shard(exe, path, record_path):
     return executed, checked, problems
 
 
-def run_scripts(exe, scripts, pid, name='e1', record=False, shards=None):
+def run_scripts(exe, scripts, pid, name='e1', record=False, shards=None, flavours=0, flav_every=40):
     """scripts: iterable of lists of lines (each list is one script, started from a fresh object).
     Returns ExecResult.  Scripts are distributed round-robin over shard files executed in parallel."""
     from concurrent.futures import ThreadPoolExecutor
@@ -417,6 +417,15 @@ def run_scripts(exe, scripts, pid, name='e1', record=False, shards=None):
     for sc in scripts:
         f = files[n % shards]
         f.write('@%s-%d\n' % (name, n))
+        if flavours:
+            # endpoint flavours of the harness (driver.h): directives, not events; cycled deterministically
+            sc = list(sc)
+            out = []
+            for i, l in enumerate(sc):
+                if i % flav_every == 0:
+                    out.append('!flav %d' % ((n + i // flav_every) % flavours))
+                out.append(l)
+            sc = out
         f.write('\n'.join(sc))
         f.write('\n')
         n += 1
@@ -649,12 +658,12 @@ def graph_flow(v, module, cfg, exe, tag, depth=3, budget=20000, walks=50, walkle
     return g, r, res
 
 
-def trace_flow(v, module, cfg, exe, scripts, tag, sigfn=None):
+def trace_flow(v, module, cfg, exe, scripts, tag, sigfn=None, flavours=0):
     """E2: execute scripts (no expectations) on the real library, record every call, let TLC validate the
     recording against the specification.  A rejection is re-run once before it is reported (R8)."""
     from concurrent.futures import ThreadPoolExecutor
     scripts = list(scripts)
-    res = run_scripts(exe, scripts, v.pid, name=tag, record=True)
+    res = run_scripts(exe, scripts, v.pid, name=tag, record=True, flavours=flavours)
     v.exec_problems(res, exe)   # sanitizer reports / crashes while recording
     total_events = 0
     accepted = 0
@@ -690,13 +699,18 @@ def trace_flow(v, module, cfg, exe, scripts, tag, sigfn=None):
         while b > 0 and '"op":"@"' not in lines[b]:
             b -= 1
         script = []
+        flav = 0
         for jl in lines[b:bad + 1]:
             if not jl:
                 continue
             o = json.loads(jl)
             if o['op'] == '@':
                 script.append('@' + o['tag'])
+                flav = 0
             else:
+                if o.get('flav', 0) != flav:
+                    flav = o.get('flav', 0)
+                    script.append('!flav %d' % flav)
                 script.append(o['op'] + ' ' + ' '.join(str(x) for x in o['a']))
         rejected = lines[bad] if bad < len(lines) else ''
         inv = ''
